@@ -279,9 +279,11 @@ class C12(core.PropertyCheck):
                 exists.add(p)
                 ever.add(p)
                 ops.append({"op": "create", "path": p, "text": self.gen_text(rng, p, ctx)})
+            elif r < 0.9 and mode == "disk" and kind != "corr" and ops:
+                ops.append({"op": "build"})
             else:
                 ops.append({"op": "postprocess"})
-            if dense and ops[-1]["op"] != "postprocess" and len(ops) < n:
+            if dense and ops[-1]["op"] not in ("postprocess", "build") and len(ops) < n:
                 ops.append({"op": "postprocess"})
         ops = ops[:8]
         if "includes/extracts-b.yaml" in exists and "includes/extracts-a.yaml" in exists and self._xfile and rng.random() < 0.5:
@@ -539,15 +541,15 @@ class C12(core.PropertyCheck):
     def nontrivial_key(self, case, impl):
         if impl.get("exc") or not impl["checks"]:
             return None
-        if not any(o["op"] != "postprocess" for o in case["ops"]):
+        if not any(o["op"] not in ("postprocess", "build") for o in case["ops"]):
             return None
         return self.ckey(case)
 
     def branch_tags(self, case, model, impl):
         tags = ["kind:" + case.get("kind", "e2e"), "mode:" + case.get("mode", "disk")]
         for o in case["ops"]:
-            if o["op"] == "postprocess":
-                tags.append("op:postprocess")
+            if o["op"] in ("postprocess", "build"):
+                tags.append("op:" + o["op"])
             else:
                 tags.append(f"op:{o['op']}-{category(o['path'])}" + ("-buffer" if o.get("via") == "buffer" else ""))
         tags.append(f"checks:{len(impl['checks'])}")
